@@ -175,6 +175,17 @@ macro_rules! replay_table {
     };
 }
 
+/// Vacuity canary: a deliberately false obligation. Every run requires Kani to REJECT it; if it is
+/// ever reported successful the tool chain proves nothing and the check refuses to answer.
+pub mod canary {
+    #[cfg(kani)]
+    #[kani::proof]
+    pub fn must_fail() {
+        let x: u8 = kani::any();
+        kani::assert(x != 77, "canary: deliberately false obligation");
+    }
+}
+
 pub mod exts {
     include!(concat!(env!("DEBRUIJN_VERIF_DIR"), "/kani/exts.rs"));
 }
